@@ -612,6 +612,19 @@ def stmt_of(n):
     return None
 
 
+def value_stmt_of(n):
+    """like stmt_of, but when n is the value of a block in tail position (`let x = { ..; n }`, an inlined helper body) the statement that
+    receives the block's value"""
+    st = stmt_of(n)
+    while st is not None and st.k == "expr_stmt" and not st.get("semi") and st.parent is not None and st.parent.k == "block" and st.parent["stmts"][-1] is st \
+            and st.parent.parent is not None and isinstance(st.parent.parent, Node) and st.parent.parent.k != "fn":
+        up_ = stmt_of(st.parent)
+        if up_ is None:
+            break
+        st = up_
+    return st
+
+
 def bindings(fn):
     """map local name -> list of binding sites: ('param', idx) | ('let', let_node, path) |
     ('pat', node, path) for match/for/closure patterns. path = tuple of selectors
@@ -696,6 +709,8 @@ def _in_scope(site, at):
     elif kind in ("arm", "for", "closure"):
         scope = node
     elif kind == "iflet":
+        if _is_ancestor(node, at):
+            return False        # the scrutinee of `if let PAT = E` is evaluated outside the pattern's scope
         scope = node.parent
         while scope is not None and isinstance(scope, Node) and scope.k not in ("if", "while"):
             scope = getattr(scope, "parent", None)
@@ -719,7 +734,7 @@ def sha_file(path):
 #   * a > b prints as b < a, a >= b as b <= a; operands of + * == != are sorted
 #   * parentheses and `as` casts between integer types keep their place (casts are printed), parens are dropped
 _PURE_METHODS = {"get", "unwrap", "map", "unwrap_or", "map_or", "is_some_and", "is_none_or", "and_then", "filter", "unwrap_or_default", "cmp", "partial_cmp", "is_lt", "is_gt", "is_le", "is_ge", "is_eq", "is_ne", "min", "max", "len", "clone", "as_ref", "first", "last", "is_empty", "is_some", "is_none",
-                 "as_bytes", "saturating_add", "saturating_sub", "saturating_mul", "checked_sub", "checked_add", "checked_mul", "wrapping_add", "abs", "floor", "ceil", "to_string", "iter", "copied", "clamp", "pow", "trim_end", "trim", "as_str", "borrow", "borrow_mut", "to_owned"}
+                 "as_bytes", "saturating_add", "saturating_sub", "saturating_mul", "checked_sub", "checked_add", "checked_mul", "wrapping_add", "abs", "floor", "ceil", "to_string", "iter", "copied", "clamp", "pow", "sqrt", "powi", "powf", "ln", "exp", "round", "trunc", "is_nan", "is_finite", "signum", "rem_euclid", "div_euclid", "abs_diff", "leading_zeros", "trailing_zeros", "count_ones", "trim_end", "trim", "as_str", "borrow", "borrow_mut", "to_owned"}
 
 
 def pure_expr(e, fn=None, depth=0):
